@@ -248,7 +248,40 @@ def check_sentence_lines(ctx: Ctx) -> None:
             from .common import expand_flag_edges
 
             edges = expand_flag_edges(flow, must_edges(flow.cfg, h, mnode) or set())
-            short = any(b.kind == "test" and lab == "T" and "min_line_len" in norm(b.ast) and f"{L}[-1]" in norm(b.ast) for b, lab in edges)
+            def short_test(b: Node) -> bool:
+                """a conjunct of the condition says: length of {L}[-1] < min_line_len (possibly behind a named temporary /
+                the result of a predicate helper)"""
+                cands_ = [b.ast]
+                try:
+                    cands_.append(expand_expr(prog, lw, b.ast, b))
+                except Exception:  # noqa: BLE001
+                    pass
+                for e_ in cands_:
+                    conj = []
+
+                    def flat_and(x: ast.AST) -> None:
+                        if isinstance(x, ast.BoolOp) and isinstance(x.op, ast.And):
+                            for v_ in x.values:
+                                flat_and(v_)
+                        else:
+                            conj.append(x)
+                    flat_and(e_)
+                    for cj in conj:
+                        if isinstance(cj, ast.UnaryOp) and isinstance(cj.op, ast.Not) and isinstance(cj.operand, ast.Compare) and len(cj.operand.ops) == 1:
+                            inv = {ast.GtE: ast.Lt, ast.LtE: ast.Gt}.get(type(cj.operand.ops[0]))
+                            if inv is None:
+                                continue
+                            cj = ast.Compare(left=cj.operand.left, ops=[inv()], comparators=cj.operand.comparators)
+                        if isinstance(cj, ast.Compare) and len(cj.ops) == 1:
+                            l_, op_, r_ = cj.left, cj.ops[0], cj.comparators[0]
+                            if isinstance(op_, ast.Gt):
+                                l_, r_, op_ = r_, l_, ast.Lt()
+                            if isinstance(op_, ast.Lt) and f"{L}[-1]" in norm(l_) and isinstance(l_, ast.Call) and len(l_.args) == 1 \
+                                    and norm(l_.args[0]) == f"{L}[-1]" and "min_line_len" in norm(r_) and isinstance(r_, ast.Name):
+                                return True
+                return False
+
+            short = any(b.kind == "test" and lab == "T" and short_test(b) for b, lab in edges)
             ctx.ob("R-SENT", f"{lw.qual} :: merge into {L}[-1] only when it is short", short,
                    "a sentence may join the previous line only if that line is shorter than the minimum line length", where(lw, mnode))
         for pn in pops:
@@ -1205,11 +1238,22 @@ def check_accounting(ctx: Ctx, markdown_only: bool = False) -> None:
     def is_fit(e: ast.AST) -> bool:
         return isinstance(e, ast.Compare) and len(e.ops) == 1 and isinstance(e.ops[0], (ast.LtE, ast.Lt)) and "width" in norm(e.comparators[0])
 
-    fit_nodes = [n for n in flow.cfg.nodes if n.kind == "test" and any(is_fit(x) for x in ast.walk(n.ast))]
+    def test_of(n_: Node) -> ast.AST:
+        """the condition of a test node, read through a named temporary (`fits = col + w + sp <= width ... if fits:`)"""
+        if isinstance(n_.ast, ast.Name):
+            try:
+                return expand_expr(prog, wl, n_.ast, n_, strict=False, depth=1)
+            except Exception:  # noqa: BLE001
+                return n_.ast
+        return n_.ast
+
+    fit_nodes = [n for n in flow.cfg.nodes if n.kind == "test" and any(is_fit(x) for x in ast.walk(test_of(n)))]
     ctx.require("R-ACCT", "fit test in the fill loop", len(fit_nodes), 1)
     fits = []
+    fit_expr: dict[Node, ast.AST] = {}
     for n in fit_nodes:
-        alone = is_fit(n.ast)
+        fit_expr[n] = test_of(n)
+        alone = is_fit(fit_expr[n])
         ctx.ob("R-ACCT", f"{wl.qual} :: the fit test alone decides where a word goes", alone,
                "a word stays on the current line exactly when column + word + space <= width; the condition is "
                f"`{norm(n.ast)[:90]}` - an extra alternative keeps words that do not fit (the line is no longer within the width / maximal), "
@@ -1220,7 +1264,7 @@ def check_accounting(ctx: Ctx, markdown_only: bool = False) -> None:
         # the left side, read through its temporaries, is a sum of exactly: the running column (a name carried around the
         # word loop), the length of the current word (a one-argument call on the loop variable), and the separating space
         # (1, or 1-if-the-line-is-non-empty-else-0)
-        ex = expand_expr(prog, wl, t.ast.left, t, strict=False)
+        ex = expand_expr(prog, wl, fit_expr[t].left, t, strict=False)
         terms_: list[ast.AST] = []
 
         def flat_(e: ast.AST) -> None:
@@ -1246,12 +1290,12 @@ def check_accounting(ctx: Ctx, markdown_only: bool = False) -> None:
             else:
                 kinds_.append("?" + norm(tm)[:30])
         ok = sorted(kinds_) == ["column", "space", "word"]
-        ctx.ob("R-ACCT", f"{wl.qual} :: fit test", ok and norm(t.ast.comparators[0]) == "width",
-               f"a word fits if column + word + separating space <= width; the test adds up {sorted(kinds_)} (`{norm(ex)[:80]}`) against `{norm(t.ast.comparators[0])}`", where(wl, t))
+        ctx.ob("R-ACCT", f"{wl.qual} :: fit test", ok and norm(fit_expr[t].comparators[0]) == "width",
+               f"a word fits if column + word + separating space <= width; the test adds up {sorted(kinds_)} (`{norm(ex)[:80]}`) against `{norm(fit_expr[t].comparators[0])}`", where(wl, t))
     # the running column: the variable of the fit test that is re-assigned inside the word loop
     wvars: set[str] = set()
     for t in fits:
-        for x in ast.walk(t.ast.left):
+        for x in ast.walk(fit_expr[t].left):
             if isinstance(x, ast.Name) and any(d.node in flow.loop_body_nodes(h) and d.kind in ("assign", "aug") for h in flow.cfg.nodes if h.kind == "for"
                                                for d in flow.defs if d.var == x.id):
                 if any(d.kind == "aug" for d in flow.defs if d.var == x.id):
